@@ -105,8 +105,9 @@ CHECKS["C16"] = dict(
          "state; an accepted release was a valid one. memory_stack::unwind to any marker above the top is reported with the stack unchanged, "
          "markers at or below the top in the current block never are; static/virtual/fixed block sources report exactly the non-LIFO returns. "
          "Tied by child-process probes on the real allocators after seeded valid histories (outcome class vs model) in rwdi/dbg/dbgna.",
-    note="partial: completeness of the small list's search for valid pointers is at correspondence level. Two genuine defects found and "
-         "repaired (cursor overwritten before the report; non-terminating search for a foreign pointer on a one-chunk list).",
+    note="small list: search soundness, termination and completeness proved for every sorted ring and cursor position, valid releases never "
+         "reported; the ring invariant under `insert` is at correspondence level. Two genuine defects found and repaired (cursor overwritten "
+         "before the report; non-terminating search for a foreign pointer on a one-chunk list).",
     technique="Lean 4 proof (search correctness/termination, case analysis of the checks) + child-process correspondence")
 CHECKS["C17"] = dict(
     text="Lean theorems over a byte-level model of debug_fill_new/debug_fill_free/debug_is_filled and the [fence|node|fence] layout: for "
